@@ -22,6 +22,8 @@ def encErr : Option Streams.Err → GoSem.Err
   | none => none
   | some .eof => some "io.EOF"
   | some .tooLarge => some "ErrStreamTooLarge"
+  | some .closedPipe => some "io.ErrClosedPipe"
+  | some .bodyClosed => some "http.ErrBodyReadAfterClose"
   | some e => some ("src:" ++ e.name)
 
 theorem encErr_eq_none (e : Option Streams.Err) : (encErr e == (none : GoSem.Err)) = (e == none) := by
